@@ -103,6 +103,9 @@ GUARD_SPAN = "multi_revision_span"
 # or changes kind in the same upload: the inner change is executed with the OLD path after the
 # directory has already been moved away (NoSuchFile)
 GUARDED["dir_move_with_inner_change"] = {"rename_full_dirs": False, "swap_full_dirs": False}
+# a file that is renamed and whose exec bit flips with unchanged text: upload_tree re-uploads a
+# renamed file only `if change.changed_content`, so the remote keeps the old mode
+# (fixed in /repo 27037ec: no longer guarded, the shape is generated in every run)
 
 
 def generate(rng, tier):
@@ -112,6 +115,8 @@ def generate(rng, tier):
     ignore = rng.choice(IGNORE_SETS) if rng.random() < (0.25 if GUARD_IGNORE_MOVES not in lifted or not os.environ.get("C43_FORCE_LIFTED") else 0.9) else None
     opts = {
         "inside_links": True,
+        "reuse_paths": True,
+        "rename_chmod": True,
         "odd_names": rng.random() < 0.25,
         "binary": True,
         "big": False,
@@ -255,10 +260,17 @@ def category(mh, revs, patterns):
     labels = set()
     moved_ignored = False
     dir_move = False
+    renamed_to, chmodded, modified = set(), set(), set()
     for r in revs:
         spec = mh.revs[r]
         tree = mh.tree(spec["parents"][0]) if spec["parents"] else {}
         for a in spec["actions"]:
+            if a[0] == "rename" and tree[a[1]][1] == FILE:
+                renamed_to.add(a[2])
+            elif a[0] == "chmod":
+                chmodded.add(a[1])
+            elif a[0] == "modify":
+                modified.add(a[1])
             if a[0] == "add" and a[3] == LINK or a[0] == "retype" and (a[2] == LINK or tree[a[1]][1] == LINK) or a[0] == "modify" and tree[a[1]][1] == LINK:
                 labels.add("symlink")
             if a[0] in ("rename", "swap"):
@@ -282,6 +294,8 @@ def category(mh, revs, patterns):
         return "multi-revision-span"
     if dir_move:
         return "dir-move-with-inner-change"
+    if (renamed_to & chmodded) - modified:
+        return "rename-with-exec-only-change"
     if "kind-change" in labels:
         return "kind-change"
     if "swap" in labels:
@@ -290,7 +304,7 @@ def category(mh, revs, patterns):
 
 
 RERUN_CLASS = "rerun-repeats-renames"
-GUARD_CLASSES = ("symlink", "ignored-path-moved", "multi-revision-span", "dir-move-with-inner-change")
+GUARD_CLASSES = ("symlink", "ignored-path-moved", "multi-revision-span", "dir-move-with-inner-change", "rename-with-exec-only-change")
 
 
 def vsig(oracle, mh, revs, patterns, rest):
